@@ -1,5 +1,6 @@
 import GeoVerif.Corr.Proto
 import GeoVerif.Model.TM
+import GeoVerif.Corr.C06X
 /-!
 Correspondence for C06.
 
@@ -122,6 +123,21 @@ def handle (op : String) (args res : List String) : Option Verdict :=
       else if !(rng slon 180 && rng elon 180) then .bad s!"Reverse longitude outside [-180, 180]: series {showF slon} exact {showF elon}"
       else .ok
     | _ => .bad "parse"
-  | _ => none
+  | "tmapi" => some <|
+    -- constructor outcomes of the series object, the exact object and the exact object with extendp ("ok" or an exception tag); the
+    -- relations (overloads, inspectors, delegation, constructor domain) are evaluated on the implementation by the harness
+    if res.length == 3 && res.all (fun s => s == "ok" || s.startsWith "!") then .ok else .bad "parse"
+  | "tmutm" => some <|
+    match parseFs res with
+    | some [_, _, sg, sk, _, _, _, ek] =>
+      let okk (k : F64) := k.isNaN || F64.gt k 0
+      if !(sg.isNaN || (F64.ge sg (F64.ofInt (-180)) && F64.le sg (F64.ofInt 180))) then .bad s!"UTM(): series convergence outside [-180, 180]: {showF sg}"
+      else if !(okk sk && okk ek) then .bad "UTM(): scale not positive" else .ok
+    | _ => .bad "parse"
+  | "tmtool" => some <|
+    match res with
+    | [rc, out] => if rc.toInt?.isSome && (parseS out).isSome then .ok else .bad "parse"
+    | _ => .bad "parse"
+  | _ => C06X.handle op args res
 
 end GeoVerif.Corr.C06
